@@ -74,17 +74,6 @@ end
 def critItems : Crit → List KI
   | .mk f nots ors => orAll (flatItems f ++ notItems nots ++ orItems ors)
 
-mutual
-  def depth : Crit → Nat
-    | .mk _ nots ors => 1 + max (depthNots nots) (depthOrs ors)
-  def depthNots : CritList → Nat
-    | .nil => 0
-    | .cons c t => max (depth c) (depthNots t)
-  def depthOrs : OrList → Nat
-    | .nil => 0
-    | .cons a b t => max (max (depth a) (depth b)) (depthOrs t)
-end
-
 /-! ### what the theorem assumes of a criteria value -/
 
 structure FlatOK (f : Flat) : Prop where
